@@ -82,6 +82,23 @@ AREAS = {
                 'random subset of the real plugins NonVerbose / SomeIp / CAN / Muniic / Rewrite / FileTransfer (configured from /repo/tests) in a random order '
                 'through plugins_process_msgs, one third runs AnonymizePlugin and lifecycle detection on the original and on the anonymised trace',
     },
+    'rem': {
+        'shrink_sep': ' ;; ', 'head_sep': ' | ', 'needs_bin': True,
+        'rule': 'a DLT file of 0-25 (thorough 0-60) verbose messages over 1-2 ECUs / 3 APIDs / 2 CTIDs / 6 payload texts with equal or increasing times, '
+                'and a command history of 2-11 (thorough 2-16) commands sent over a websocket to `adlt remote` (binary built from the working tree): '
+                'open (also with sort, also of a missing file, also twice), close, pause/resume, stream / query with 0-2 positive/negative filters and windows '
+                '(empty, beyond the end), stop, stream_change_window, stream_search (all start positions, page sizes 0-4), stream_binary_search by index and by time, '
+                'each also with ids never announced / already stopped / of finished queries, without id, with a malformed or missing body, and unknown commands; '
+                'the client lets the server catch up before commands whose answer depends on the parsing progress',
+    },
+    'rsn': {
+        'shrink_sep': ';', 'head_sep': ' | ',
+        'rule': 'library level: a StreamContext built by StreamContext::from (stream or query, 0-2 positive/negative filters, any window) over 1-80 '
+                '(thorough 1-160) messages - one case in 60 (thorough 12) over 140 000-160 000 messages, beyond the part chunk size of the query loop - driven by '
+                '2-11 (thorough 2-16) events: n more messages arrive, one server round = process_stream_new_msgs(offset = progress mark, everything new, '
+                'max_chunk_size in {0,1,2, small, 64, 65535-65537, 3 000 000, window sized}), window change; three quarters of the cases end with everything '
+                'arrived and three full rounds',
+    },
     'dp': {
         'shrink_sep': ';', 'head_sep': None,
         'rule': 'byte streams built from items: well-formed messages (all 32 combinations of the optional header parts, both byte orders, '
@@ -163,6 +180,19 @@ PROPS = {
         'id': 'C19', 'area': 'plg',
         'theorems': ['Props.C19_anon_table_injective', 'Props.C19_anon_format_injective', 'Props.C19_anon_capacity_sharp'],
         'n_quick': 1500, 'n_thorough': 40000,
+    },
+    'C15': {
+        'id': 'C15', 'area': 'rem',
+        'theorems': ['Props.C15_one_reply_each', 'Props.C15_file_open_iff', 'Props.C15_close_then_open', 'Props.C15_id_usable_from_creation',
+                     'Props.C15_id_usable_until_ended', 'Props.C15_id_unusable_after_stop_close', 'Props.C15_ids_fresh', 'Props.C15_stop_accepted_iff'],
+        'n_quick': 250, 'n_thorough': 4000, 'env': {'VERIF_JOBS': '16'},
+    },
+    'C16': {
+        'id': 'C16', 'area': ['rem', 'rsn'],
+        'theorems': ['Props.C16_window_exact', 'Props.C16_sequence_is_filtered_log', 'Props.C16_stream_delivers_window', 'Props.C16_search_paging',
+                     'Props.C16_lookup_first_not_before', 'Props.C16_any_schedule_invariant', 'Props.C16_settled_is_window',
+                     'Props.C16_eventually_settles', 'Props.C16_consts'],
+        'n_quick': [250, 3000], 'n_thorough': [4000, 150000], 'env': {'VERIF_JOBS': '16'},
     },
     'C05': {
         'id': 'C05', 'area': 'lc',
